@@ -180,6 +180,15 @@ def runCounters : List CounterOps → Int → List Int
   | [], _ => []
   | o :: os, v => counterStep o v :: runCounters os (counterStep o v)
 
+/-- value a margin box shows for a counter whose page-level value is `v`, after the box's own
+    counter-reset / counter-set / counter-increment (makeMarginBoxes works on a COPY of the page state:
+    the manipulation is scoped to the box; there is no default increment in a margin box) -/
+def boxCounter (ops : CounterOps) (v : Int) : Int :=
+  ops.set.getD (ops.reset.getD v) + ops.incr.getD 0
+
+/-- what the margin boxes of one page show, in generation order -/
+def marginValues (boxes : List CounterOps) (v : Int) : List Int := boxes.map (boxCounter · v)
+
 /-! ### class-F pagination with the selected geometry -/
 
 /-- content-box top and height in the integer unit of the pagination model (1/4 px) -/
